@@ -1,7 +1,7 @@
 (* C19 - Peer-to-peer activation negotiates limits both sides then obey.
    Only statements here; proofs are in Proofs/Negotiate.v and Bridge/Negotiate.v.  The model
    (Model/Negotiate.v) is of the repaired code (fixes/c04-target-miu-did.diff,
-   fixes/c19-lto-held-as-announced.diff).  `lopt` are the LLC options of one device
+   fixes/c19-lto-held-as-announced.diff, fixes/c19-lsc-announced-after-reactivation.diff).  `lopt` are the LLC options of one device
    (miu, lto, lsc, sec, bound well-known service access points), `general_bytes` what
    LogicalLinkController.activate announces, `llc_takeover` what it stores from the peer's
    general bytes, `negotiate_dep` both NFC-DEP activations against each other through the frame codec,
@@ -141,6 +141,47 @@ Theorem C19_bridge_tgt_eval : forall o brty id did bs br pp gb d, 0 <= pp ->
   dt_miu d = gen_t_miu (gen_atr_lr pp) (dt_did d) None /\ dt_wt d = gen_t_rwt (to_rwt o).
 Proof. exact bridge_tgt_eval. Qed.
 Print Assumptions C19_bridge_tgt_eval.
+
+(* --- several activations of the SAME LogicalLinkController object (options o) against different peers: what it announces
+       never depends on the history, and what it holds after the n-th activation is taken from the n-th peer only
+       (Linv o: the states reachable from llc_new o; llc_history runs the activations one after the other) --- *)
+Theorem C19_activate_depends_on_peer_only : forall o s g gb s', Linv o s -> llc_activate s g = Ok (gb, s') ->
+  general_bytes o = Ok gb /\ Linv o s' /\
+  (forall c, llc_takeover (lo_sec o) g = Ok c -> c_ok c = true -> ls_held s' = c /\ ls_send_lsc s' = c_send_lsc c).
+Proof. exact activate_depends_on_peer_only. Qed.
+Print Assumptions C19_activate_depends_on_peer_only.
+Theorem C19_history_nth_peer_only : forall o peers gbs s', llc_history (llc_new o) peers = Ok (gbs, s') ->
+  Forall (fun gb => general_bytes o = Ok gb) gbs /\
+  (forall g c, last peers [] = g -> peers <> [] -> llc_takeover (lo_sec o) g = Ok c -> c_ok c = true -> ls_held s' = c).
+Proof. intros o peers gbs s' H. destruct (history_nth_peer_only o peers (llc_new o) gbs s' (Linv_new o) H) as (A & _ & C). auto. Qed.
+Print Assumptions C19_history_nth_peer_only.
+(* what is taken over is an assignment of the received PAX values *)
+Theorem C19_takeover_assign : forall sec gb c, llc_takeover sec gb = Ok c -> c_ok c = true ->
+  exists p, pax_decode (drop 3 gb) = Ok p /\ c = cfg_assign sec (pax_miu p) (pax_lto p) (pax_wks p) (pax_lsc p) (pax_dpc p) (pax_ver p).
+Proof. exact takeover_assign. Qed.
+Print Assumptions C19_takeover_assign.
+Theorem C19_bridge_announce : forall local send_lsc, gen_announce_lsc local send_lsc = announce_lsc local send_lsc /\ gen_announce_guards = (128, 100, 0).
+Proof. exact bridge_announce. Qed.
+Print Assumptions C19_bridge_announce.
+Theorem C19_bridge_cfg_assign : forall sec miu lto wks lsc dpc ver,
+  let c := cfg_assign sec miu lto wks lsc dpc ver in
+  gen_cfg_assign sec miu lto wks lsc dpc ver = (c_ok c, c_send_miu c, c_recv_lto c, c_send_wks c, c_send_lsc c, c_dpc c, c_ver c).
+Proof. exact bridge_cfg_assign. Qed.
+Print Assumptions C19_bridge_cfg_assign.
+
+(* a history: peer 1 announces MIU 2175 / LTO 2550 / LSC 3, peer 2 omits all optional fields -> 128 / 100 / 0 are held, and
+   the LLC announces its own LSC 1 both times *)
+Example C19_history_nonvacuous :
+  match general_bytes (mklopt 2175 2550 3 false [1; 4]), general_bytes (mklopt 128 100 0 false [1]) with
+  | Ok g1, Ok g2 =>
+      match llc_history (llc_new (mklopt 248 500 1 false [1])) [g1; g2] with
+      | Ok (gbs, s) => c_send_miu (ls_held s) = 128 /\ c_recv_lto (ls_held s) = 100 /\ c_send_lsc (ls_held s) = 0 /\
+                       nth 0 gbs [] = nth 1 gbs [] /\ Ok (nth 1 gbs []) = general_bytes (mklopt 248 500 1 false [1])
+      | _ => False
+      end
+  | _, _ => False
+  end.
+Proof. vm_compute. repeat split. Qed.
 
 (* non-vacuity: a concrete activation (106A, PSL to 424F, DID 5, LRi = 64, LRt = 192, MIU 2175 / 128, LTO 2550 / 105 ms) *)
 Example C19_nonvacuous :
